@@ -115,9 +115,9 @@ theorem c04_frame_transparent (E : EvalEnv) (o : Outc) : frameG E o = o := frame
 
 /-- **Where the fault originates.**  A fault at any depth, under any number of nested
     tuple / dict / list / `Spec` / `First(key)` frames whose earlier siblings return, reaches `glom()`'s
-    handler as the same exception object. -/
+    handler as the same exception object (a StopIteration does not cross a `First(key)` frame). -/
 theorem c04_plain_frames (E : EvalEnv) (c : Ctx) (x : Sp) (o : Origin)
-    (hpre : c.PreOk E) (hx : eval E x = .exc o) : eval E (c.plug x) = .exc o :=
+    (hpre : c.PreOk E o) (hx : eval E x = .exc o) : eval E (c.plug x) = .exc o :=
   plug_propagates E c x o hpre hx
 
 /-- A `Coalesce` whose earlier alternatives were all skipped lets the fault of the next
@@ -258,12 +258,17 @@ example : selected ⟨none, none, some true⟩ keyErr = false ∧ isInst kbd "Ex
 example : (match glomTop genFacts ⟨some 7, some ["KI"], some true⟩ (.exc kbd) with
     | .dflt (.given 7) => true | _ => false) = true := by decide +kernel
 -- `c04_plain_frames`: a fault three frames deep, after siblings that return
-example : (Ctx.tup [.ok] (.dct [.ok, .tup []] (.lst (.frame (.first .hole))) [.fault]) [.badPath]).PreOk exE := by
-  simp [Ctx.PreOk, eval, evalSeq, frameG_id]
+example : (Ctx.tup [.ok] (.dct [.ok, .tup []] (.lst (.frame (.first .hole))) [.fault]) [.badPath]).PreOk exE .injected := by
+  simp only [Ctx.PreOk, and_true]
+  decide +kernel
 example : eval exE ((Ctx.tup [.ok] (.dct [.ok, .tup []] (.lst (.frame (.first .hole))) [.fault]) [.badPath]).plug .fault)
     = .exc .injected := by decide +kernel
 -- without `PreOk`: an earlier sibling fails first, with its own exception
 example : eval exE ((Ctx.tup [.badPath] .hole []).plug .fault) = .exc (.internal "PathAccessError") := by
+  decide +kernel
+-- without the StopIteration clause of `PreOk`: the key of `First` raising StopIteration is taken by
+-- `next(filter(key, …))` for the end of the iteration; nothing is raised at all
+example : eval ⟨genFacts, ["StopIteration", "Exception", "BaseException", "object"]⟩ ((Ctx.first .hole).plug .fault) = .val := by
   decide +kernel
 -- `c04_coalesce_selective`: KeyError passes a default Coalesce (skip_exc=GlomError), is absorbed by
 -- skip_exc=LookupError; an absorbed PathAccessError precedes it
